@@ -287,12 +287,19 @@ func (ws *WatchingSource) watchLoop(
 	}
 
 	watchingFile := true
+	// recheck is set when an iteration changed the set of watches: a change
+	// made to the file after that iteration read it, but before the new
+	// watches were in place, is not reported by any watch, so the file is
+	// read once more without waiting for an event.
+	recheck := false
 	eventNumber := 0
 	cleanedPathDir := filepath.Dir(cleanedPath)
 	cleanedPathDirPlusDir := filepath.Join(cleanedPathDir, k8sIntermediateSymlinkDir)
 MAINLOOP:
 	for {
 		select {
+		case <-recheckChan(recheck):
+			recheck = false
 		case <-tickerChan:
 		case <-ws.Reload:
 		case ev, ok := <-ws.watcher.Events:
@@ -354,9 +361,12 @@ MAINLOOP:
 					cleanedPath, addErr)
 			} else {
 				watchingFile = true
+				recheck = true
 			}
 		}
-		ws.updateDirWatches(oldResolvedCfgDir, filepath.Dir(resolvedCfgPath))
+		if ws.updateDirWatches(oldResolvedCfgDir, filepath.Dir(resolvedCfgPath)) {
+			recheck = true
+		}
 		verifPoint(ctx, "fw.rearmed", "watchingFile", watchingFile)
 
 		switch t := parseErr.(type) {
@@ -378,21 +388,35 @@ MAINLOOP:
 
 }
 
-func (ws *WatchingSource) updateDirWatches(oldResolvedCfgDir, resolvedCfgDir string) {
+// closedChan is always ready to receive from.
+var closedChan = func() chan struct{} { c := make(chan struct{}); close(c); return c }()
+
+// recheckChan returns a channel that is ready iff recheck is set (a nil channel otherwise).
+func recheckChan(recheck bool) <-chan struct{} {
+	if recheck {
+		return closedChan
+	}
+	return nil
+}
+
+// updateDirWatches moves the watch on the symlink-resolved directory if that
+// directory changed. It returns true if a new watch was added.
+func (ws *WatchingSource) updateDirWatches(oldResolvedCfgDir, resolvedCfgDir string) bool {
 	if oldResolvedCfgDir == resolvedCfgDir {
-		return
+		return false
 	}
 	// If the config's resolved directory has changed, make sure we
 	// remove the old watch after the new one is added so we don't lose change notifications
 	if addErr := ws.watcher.Add(resolvedCfgDir); addErr != nil {
 		ws.logger.Printf("failed to add new watch for symlink-resolved directory: %q: %s",
 			resolvedCfgDir, addErr)
-		return
+		return false
 	}
 	if removeErr := ws.watcher.Remove(oldResolvedCfgDir); removeErr != nil {
 		ws.logger.Printf("failed to remove old watch for old symlink-resolved directory: %q: %s",
 			oldResolvedCfgDir, removeErr)
 	}
+	return true
 }
 
 // StdLogger is an interface satisified by several logging types, including the
